@@ -472,6 +472,15 @@ def proofs(ctx, prop):
     hits = audit_text()
     if hits:
         broken.append(("audit:text", "forbidden tokens in Lean sources: " + "; ".join(hits[:10])))
+    # 5. thorough tier: independent re-check of the compiled property modules with leanchecker (one module per call)
+    if rc == 0 and ctx.tier == "thorough":
+        for mod in prop.lean_targets:
+            with Lock("lake"):
+                rc3, out3 = sh(["lake", "env", "leanchecker", mod], cwd=LEAN, timeout=1800)
+            if rc3 != 0:
+                broken.append((f"leanchecker:{mod}", out3[-1500:]))
+            else:
+                ctx.notes.append(f"leanchecker re-checked {mod}")
     return broken
 
 
